@@ -402,6 +402,15 @@ def validate_traces(pid, family, module, cfg, traces, *, dfs=False, timeout=900,
             jobs.append((pid, family, module, g, [traces[i] for i in part], timeout, dfs, len(jobs), part))
     with ThreadPoolExecutor(max_workers=procs or min(NCPU, len(jobs))) as ex:
         results = list(ex.map(lambda j: _validate_chunk(j[:8]), jobs))
+    # a TLC process that was KILLED (memory pressure with many JVMs side by side, timeout under load) says nothing about the
+    # traces: those chunks are run once more, two at a time, with a doubled time limit
+    again = [k for k, (st, payload, _) in enumerate(results) if st != "ok" and ("rc=-9" in str(payload) or "to=True" in str(payload))]
+    if again:
+        log("[%s] trace validation: %d of %d TLC processes were killed / timed out, running them again" % (pid, len(again), len(jobs)))
+        with ThreadPoolExecutor(max_workers=2) as ex:
+            redo = list(ex.map(lambda k: _validate_chunk(jobs[k][:5] + (jobs[k][5] * 2,) + jobs[k][6:8]), again))
+        for k, r in zip(again, redo):
+            results[k] = r
     for job, (st, payload, distinct) in zip(jobs, results):
         g, part = job[3], job[8]
         if st != "ok":
